@@ -6,6 +6,7 @@ import (
 	"github.com/f1bonacc1/process-compose/src/templater"
 	"github.com/f1bonacc1/process-compose/src/types"
 	"github.com/rs/zerolog/log"
+	"maps"
 	"path/filepath"
 )
 
@@ -98,6 +99,10 @@ func cloneReplicas(p *types.Project) {
 			proc.ReplicaNum = replica
 			repName := proc.CalculateReplicaName()
 			proc.ReplicaName = repName
+			// probes and vars are rendered per replica, don't share them
+			proc.LivenessProbe = proc.LivenessProbe.DeepCopy()
+			proc.ReadinessProbe = proc.ReadinessProbe.DeepCopy()
+			proc.Vars = maps.Clone(proc.Vars)
 			if proc.Replicas == 1 {
 				p.Processes[repName] = proc
 			} else {
